@@ -268,3 +268,8 @@ LEVEL_NOTE = ("Trusted: Coq kernel; the transcription Model/PacketWriter.v; the 
               "error); extraction and glue. Not covered: retention/aliasing of the "
               "packet pointer by the wrapped writer (goexec copies at call time).")
 TECHNIQUE = "Coq proof by induction over chunks and read scripts with writer/reader oracles + model/implementation correspondence over fragmentation classes"
+
+
+# coverage round (notes/coverage.md): cases and support theorems for exported identifiers outside the property text
+from gen import covlib
+covlib.install(globals())
